@@ -181,6 +181,11 @@ func (e *BinaryOpExpr) checkWithCompares(ctx *CheckCtx) error {
 		if ltype != TSTR {
 			return NewSyntaxError(e.Left.GetPos(), "%s operator has wrong type of left expression", op)
 		}
+	case Eq, NotEq:
+		// List and JSON values cannot be compared
+		if ltype != TNUMBER && ltype != TSTR && ltype != TBOOL {
+			return NewSyntaxError(e.Left.GetPos(), "%s operator has wrong type of left expression", op)
+		}
 	}
 	return nil
 }
